@@ -1,6 +1,6 @@
 """C19 — results depend only on the csvpath, the file and the configuration.
 
-Spec: spec/History.tla — jobs run "direct" or through a CsvPaths instance ("paths", the route that
+Spec: spec/History.tla — jobs run "direct", as named runs on one shared named-file name ("named"), or through a CsvPaths instance ("paths", the route that
 consults the on-disk line-count/header cache), NewProcess (registries reset, disk cache kept),
 ClearCache; the property HistoryFree says a job's result is a function of the job alone in every
 reachable state. TLC checks it on the spec and emits every history up to a length; each history
@@ -76,9 +76,8 @@ def make_jobs(rng, d, njobs, nfiles):
 
 
 def aba(hist, nfiles):
-    """the jobs that go through a CsvPaths instance visit the files X, Y, X: one name re-registered to earlier content"""
-    fs = [(s["j"] - 1) % nfiles for s in hist if s["op"] == "job" and s["via"] == "paths"]
-    return any(fs[i] == fs[i + 2] != fs[i + 1] for i in range(len(fs) - 2))
+    """a named run that re-registers the shared name to content it held before, with other content in between (History!BackToEarlier)"""
+    return any(s["op"] == "job" and s["via"] == "named" and s["regBefore"] and s["regWas"] != ((s["j"] - 1) % nfiles) + 1 for s in hist)
 
 
 def _replay(args):
@@ -106,8 +105,7 @@ def _replay(args):
         elif st["op"] == "clearcache":
             cur.append({"op": "clearcache"})
         else:
-            # in every other history the jobs that go through a CsvPaths instance are named runs: the file registered under one shared name
-            cur.append(dict(jobs[st["j"] - 1], via=st["via"], named=(st["via"] == "paths" and (idx % 2 == 0 or aba(hist, nfiles))), _j=st["j"], _st=st))
+            cur.append(dict(jobs[st["j"] - 1], via=st["via"], named=(st["via"] == "named"), _j=st["j"], _st=st))
     segs.append(cur)
     pos = 0
     for seg in segs:
@@ -162,7 +160,7 @@ def main(tier):
     rep.add_tlc(f"History: every history of length {emit_len}", r2)
     full = [h for h in r2.records if sum(1 for s in h if s["op"] == "job") >= 2]
     # the situations that matter most: a job served from a warm disk cache by a process that does not hold it in memory
-    key = [h for h in full if any(s["op"] == "job" and s["via"] == "paths" and s["cacheWas"] == "warm" and not s["memWas"] for s in h)]
+    key = [h for h in full if any(s["op"] == "job" and s["via"] in ("paths", "named") and s["cacheWas"] == "warm" and not s["memWas"] for s in h)]
     rest = [h for h in full if h not in key]
     rng = random.Random(common.seed() + 5)
     rng.shuffle(rest)
